@@ -34,18 +34,6 @@ Proof.
   split; [apply widthb_In; exact A|]. split; [apply rangeb_Forall; exact B|apply nodupb_NoDup; exact C].
 Qed.
 
-(* distinct symbolic names never share a code - over __members__, where IntEnum / Enum aliases are visible -
-   unless the protocol itself assigns one number to both (the list below) *)
-Definition protocol_shared : list (string * string) :=
-  [("SshMessageCode", "DH_GEX_GROUP")].   (* RFC 4253 SSH_MSG_KEXDH_REPLY = RFC 4419 SSH_MSG_KEX_DH_GEX_GROUP = 31 *)
-Definition shared (cls name : string) : bool :=
-  existsb (fun p => String.eqb (fst p) cls && String.eqb (snd p) name) protocol_shared.
-Definition members_ok (t : string * list (string * Z)) : bool :=
-  nodupb (map snd (filter (fun m => negb (shared (fst t) (fst m))) (snd t))).
-Definition no_alias_ok : bool := forallb members_ok enum_members && forallb members_ok int_enum_members.
-Lemma no_alias_ok_true : no_alias_ok = true.
-Proof. vm_compute. reflexivity. Qed.
-
 Fixpoint nodupsb (l : list string) : bool :=
   match l with [] => true | x :: r => negb (existsb (String.eqb x) r) && nodupsb r end.
 Definition string_tables_ok : bool :=
